@@ -14,7 +14,18 @@ EXTRA3 = (" This is a late round: single-site slips in the obvious places, falsy
           "in-place mutation of an object handed in or out (lists, tensors, dicts, numpy arrays, context dicts), on numeric edge cases (rounding, "
           "int vs float, dtype, ties), on inheritance (a subclass that relies on a base-class method you change slightly), or on the order in which "
           "two independent components are constructed or called. Read the code paths of the less prominent files among the relevant sources too.")
-extra = "" if rnd == 1 else EXTRA3 if rnd >= 3 else " Avoid the most obvious one-token slip in the main function of the most relevant file: look instead at base classes, helper/utility functions and static helpers shared by these code paths, rarely used constructor options and their defaults (falsy values such as 0, None handling), state that is cached or carried across calls or across instances, the order of two operations, boundary values (empty, one element, exactly equal), and the interplay of two files."
+EXTRA4 = (" This is the fourth round against a verifier that generates random inputs, configurations and call sequences with strong oracles; it "
+          "already catches: single-site slips, falsy-default slips, stale caches, lost forwarding, wrong offsets, in-place mutation of "
+          "arguments or of the wrapped dataset's storage, narrow integer dtypes, one object shared by two wrappers, second passes over the same "
+          "object, launcher environment variables, tiny datasets on many ranks. Think about what random generation would typically NOT produce and "
+          "make the breakage depend on that: unusual-but-legal argument TYPES or forms (numpy integers / 0-d tensors as indices or sizes, tuples vs "
+          "lists, strings vs Path, keyword vs positional, negative indices where the library supports them, python floats vs numpy floats, bool "
+          "for int), values at magnitudes a small-case generator does not reach (sizes above 255 / 32767 / 65535, seeds above 2**31 or 2**32, many "
+          "epochs, many workers, long sequences), process / interpreter state (torch default dtype, global RNG state of python / numpy / torch, "
+          "copy / deepcopy / pickle round trips of library objects, spawn vs fork workers, persistent workers across epochs), user SUBCLASSES of "
+          "library base classes that override one documented hook, and rarely combined but documented options. The change must still be a "
+          "realistic slip and must break the stated property, not merely something adjacent to it.")
+extra = "" if rnd == 1 else EXTRA4 if rnd >= 4 else EXTRA3 if rnd >= 3 else " Avoid the most obvious one-token slip in the main function of the most relevant file: look instead at base classes, helper/utility functions and static helpers shared by these code paths, rarely used constructor options and their defaults (falsy values such as 0, None handling), state that is cached or carried across calls or across instances, the order of two operations, boundary values (empty, one element, exactly equal), and the interplay of two files."
 print(f"""You are helping to evaluate a verification effort by playing the role of a developer who introduces a subtle regression.
 
 Workspace: a scratch git worktree of the Python library BenediktAlkin/KappaData (PyTorch dataset utilities, package `kappadata`) at {wt}. Work ONLY inside {wt}. Never modify or read anything under /repo or /verif. Run Python as `/venv/bin/python` with your current directory set to {wt} (so that the worktree's copy of `kappadata` is the one imported; verify once with `cd {wt} && /venv/bin/python -c "import kappadata; print(kappadata.__file__)"` - it must print a path under {wt}; if it does not, prefix commands with `PYTHONPATH={wt}`). There is no network.
